@@ -130,6 +130,22 @@ fn resp_twins(r: &Response<'_, Box<RawValue>>) -> Result<(), String> {
 	if ser(&copy(r)) != s {
 		return Err(format!("Response::new(payload.clone(), id.clone()) of {s} gives {}", ser(&copy(r))));
 	}
+	// the constructor that also takes extensions builds the same message (extensions never reach the wire)
+	{
+		let mut ext = http::Extensions::new();
+		ext.insert(7u32);
+		let mut c = Response::new_with_extensions(r.payload.clone(), r.id.clone(), ext);
+		if c.extensions().get::<u32>() != Some(&7) {
+			return Err("Response::new_with_extensions lost the extensions".into());
+		}
+		c.extensions_mut().insert(8u64);
+		if r.jsonrpc.is_none() {
+			c.jsonrpc = None;
+		}
+		if ser(&c) != s {
+			return Err(format!("Response::new_with_extensions(..) of the parts of {s} gives {}", ser(&c)));
+		}
+	}
 	let owned = copy(r).into_owned();
 	if ser(&owned) != s || owned.id != r.id || owned.jsonrpc.is_some() != r.jsonrpc.is_some() {
 		return Err(format!("Response::into_owned of {s} gives {}", ser(&owned)));
